@@ -129,8 +129,13 @@ SOLVERS = {"closed": IA.ClosedFormIASolver, "altmin": IA.AlternatingMinIASolver,
 
 def gen_config(rng, name):
     if name == "closed":
-        M = int(rng.choice([2, 4, 6]))
-        return [M] * 3, [M] * 3, [M // 2] * 3
+        if rng.random() < 0.5:
+            M = int(rng.choice([2, 4, 6]))
+            return [M] * 3, [M] * 3, [M // 2] * 3
+        # fewer streams than half the antennas: alignment still leaves an
+        # interference-free subspace of dimension M - Ns >= Ns
+        M = int(rng.integers(3, 7))
+        return [M] * 3, [M] * 3, [int(rng.integers(1, M // 2 + 1))] * 3
     K = int(rng.integers(2, 5))
     if rng.random() < 0.6:
         M = int(rng.integers(2, 7))
@@ -155,6 +160,12 @@ def solve_call(ctx, s, name, Ns, P, tag):
             s.solve(int(Ns[0]), P)
         else:
             s.solve(np.array(Ns) if len(set(Ns)) > 1 else int(Ns[0]), P)
+        # the power the caller asked for is the power of the solution
+        K = len(Ns)
+        want = np.ones(K) if P is None else np.broadcast_to(np.asarray(P, dtype=float), (K,))
+        got = np.asarray(s.P, dtype=float)
+        ctx.ev("relations", got.shape == (K,) and bool(np.all(got == want)),
+               cls=name + ":P-after-solve", detail={**tag, "requested": want, "solver.P": got})
         return "ok"
     except RuntimeError as e:
         if name == "mmse" and "Lagrange" in str(e):
@@ -253,7 +264,11 @@ def case_solve(ctx, rng, idx):
             elif op == "solve-again":
                 if name != "closed" and rng.random() < 0.5:
                     s.initialize_with = "fix"
-                r2 = solve_call(ctx, s, name, cur_Ns, s.P, {**tag, "history": hist + [op]})
+                newP = s.P if rng.random() < 0.4 else (
+                    10.0 ** rng.uniform(-1, 2, size=K) if rng.random() < 0.6 else
+                    float(10.0 ** rng.uniform(-1, 2)))
+                r2 = solve_call(ctx, s, name, cur_Ns, newP,
+                                {**tag, "history": hist + [op], "P_of_this_solve": newP})
                 if r2 != "ok":
                     return
         except Exception as e:
